@@ -2,6 +2,7 @@ import CnlDriver.CS
 import CnlDriver.FloatIO
 import CnlModel.RoundCvt
 import CnlModel.RoundWrap
+import CnlModel.RoundElastic
 /-! `C09` table: narrowing conversions under a rounding tag. -/
 namespace Cnl.Drv
 open Cnl
@@ -23,6 +24,15 @@ def addInexact (f : Fmt) (x y : FVal) : Bool :=
   | _, _, _ => false
 
 def isIntegerQ (q : Rat) : Bool := (q.floor : Rat) == q
+
+/-- the rounding mode carried by a nest of wrappers (the outermost rounding layer; native if there is none) -/
+def rdModeOf : Ty → RdMode
+  | .rd _ m => m
+  | .ov r _ => rdModeOf r
+  | .el _ n => rdModeOf n
+  | .wd _ n => rdModeOf n
+  | .sc r _ _ => rdModeOf r
+  | _ => .nat
 
 def checkC09 (toks : List String) (res : String) : Option Verdict :=
   match toks with
@@ -107,6 +117,52 @@ def checkC09 (toks : List String) (res : String) : Option Verdict :=
       | _, _ => ""
     some { model := showRes (fun r => s!"sc({D.toString},{ed},2):{r}") m, spec := spec, cls := cls,
            branch := s!"f2s/{toks[1]!}/{fm}", nontrivial := spec.isSome }
+  | ["e2e", how, nt, ds, es, dd, ed, v] => do
+    -- elastic_scaled_integer<ds, power<es>, N> -> elastic_scaled_integer<dd, power<ed>, N>; how = cast | a rounding tag
+    let N ← parseIntTy nt; let ds ← ds.toNat?; let es ← es.toInt?; let dd ← dd.toNat?; let ed ← ed.toInt?; let v ← v.toInt?
+    let howm : Option RdMode ← if how == "cast" then some none else (parseRdMode how).map some
+    let m := RoundElastic.convert howm ⟨ds, N, es, v⟩ dd N ed
+    let mode := howm.getD .nat
+    let w := roundQ mode ((v : Rat) * pow2Rat (es - ed))
+    -- the value must be the rounded one whenever the destination (dd digits) can hold it
+    let hi : Int := 2^dd - 1
+    let lo : Int := if N.signed then -hi else 0
+    let spec : Option Bool := if lo ≤ w && w ≤ hi then some ((res.splitOn ":").getLast? == some (toString w)) else none
+    -- the destination's unit 2^k does not fit the storage of the source: half() wraps
+    let k := (ed - es).toNat
+    let cls := match Elastic.repTy ds N with
+      | some rep => if (mode == .nrst || mode == .tpi) && ed > es && k ≥ rep.digits then "C09.scaled_half_unit_exceeds_source_rep" else ""
+      | none => ""
+    let kl := if ed ≤ es then "exact" else if k == 31 || k == 32 || k == 63 || k == 64 then s!"k{k}" else if k < 31 then "k<31" else if k < 63 then "k33-62" else "k>64"
+    some { model := showRes (fun (r : ElasticScaled.ESNum) => s!"sc(el({r.digits},{r.narrowest.toString}),{r.exp},2):{r.value}") m,
+           spec := spec, cls := cls,
+           branch := s!"e2e/{how}/{if N.signed then "sgn" else "uns"}/{kl}", nontrivial := spec.isSome }
+  | ["w2i", ty, dt, v] => do
+    -- a scaled_integer whose representation carries the rounding mode -> fundamental integer (static_cast<D>)
+    let t ← parseTy ty; let D ← parseIntTy dt; let v ← v.toInt?
+    match t with
+    | .sc rep e 2 =>
+      let (m, mode, kind) : Res TV × RdMode × String := match rep with
+        | .rd (.int S) mode => (RoundElastic.toIntWrapped mode S e D v, mode, "rd")
+        | .ov (.el dg (.rd (.wd _ (.int N)) mode)) tag => (RoundElastic.toIntStatic ⟨mode, tag⟩ N dg e D v, mode, "static")
+        | r => (RoundElastic.toIntNest r e D v, rdModeOf r, "nest")
+      let q : Rat := (v : Rat) * pow2Rat e
+      let w := roundQ mode q
+      -- static_number: a rounded value of magnitude above 2^(digits − k) − 1 is lost in the intermediate
+      -- static_integer<digits − k> (open class C11.rounded_value_exceeds_intermediate_digits of property C11, not a
+      -- class of C09): the model follows the implementation there, the oracle does not judge those inputs
+      let c11 : Bool := match rep with
+        | .ov (.el dg _) _ => e < 0 && w.natAbs > 2^(dg - (-e).toNat) - 1
+        | _ => false
+      let spec : Option Bool := if c11 then none else if D.inRange w then some (res == s!"{D.toString}:{w}") else none
+      let showM : Res TV → String := fun m => match m with
+        | .unreachable "positive overflow" => "TRAP+"     -- the undefined tag's unreachable(message), as the hook reports it
+        | .unreachable "negative overflow" => "TRAP-"
+        | m => showRes showTV m
+      let frac : String := let d := q - (q.floor : Rat); if d == (1/2 : Rat) then "/tie" else if d == 0 then "/int" else if q < 0 then "/neg" else "/pos"
+      some { model := showM m, spec := spec, cls := "",
+             branch := s!"w2i/{kind}/{mode.toString}{frac}" ++ (if c11 then "/c11-intermediate-digits" else ""), nontrivial := spec.isSome }
+    | _ => none
   | _ => none
 
 end Cnl.Drv
